@@ -540,9 +540,13 @@ def _type_from_runtime(
         )
     elif isinstance(val, AsynqCallable):
         params = _callable_args_from_runtime(val.args, "AsynqCallable", ctx)
-        sig = Signature.make(
-            params, _type_from_runtime(val.return_type, ctx), is_asynq=True
-        )
+        try:
+            sig = Signature.make(
+                params, _type_from_runtime(val.return_type, ctx), is_asynq=True
+            )
+        except InvalidSignature as e:
+            ctx.show_error(str(e))
+            return AnyValue(AnySource.error)
         return CallableValue(sig)
     elif isinstance(val, ExternalType):
         try:
@@ -1216,7 +1220,11 @@ def _value_of_origin_args(
         if len(arg_types) == 1 and isinstance(arg_types[0], list):
             arg_types = arg_types[0]
         params = _callable_args_from_runtime(arg_types, "Callable", ctx)
-        sig = Signature.make(params, _type_from_runtime(return_type, ctx))
+        try:
+            sig = Signature.make(params, _type_from_runtime(return_type, ctx))
+        except InvalidSignature as e:
+            ctx.show_error(str(e))
+            return AnyValue(AnySource.error)
         return CallableValue(sig)
     elif is_typing_name(origin, "Annotated"):
         origin, *metadata = args
